@@ -349,7 +349,25 @@ def i_DEC(i_, fmap):
 
 
 def i_DAA(i_, fmap):
-    raise NotImplementedError
+    # decimal adjust of A after an addition (N=0) or a subtraction (N=1) of
+    # packed BCD operands: 0x06 is added/subtracted if H is set or the low
+    # nibble is > 9, 0x60 if C is set or A > 0x99.
+    fmap[pc] = fmap[pc] + i_.length
+    _a = fmap(a)
+    _n = fmap(nf)
+    _lo = fmap(hf) | (_a[0:4] > 9)
+    _hi = fmap(cf) | (_a > 0x99)
+    _d = tst(_lo, cst(0x06, 8), cst(0, 8)) | tst(_hi, cst(0x60, 8), cst(0, 8))
+    _x = tst(_n, _a - _d, _a + _d)
+    _p = bit1
+    for _k in range(8):
+        _p = _p ^ _x[_k : _k + 1]
+    fmap[cf] = _hi
+    fmap[hf] = (_a ^ _x)[4:5]
+    fmap[pf] = _p
+    fmap[zf] = tst(_x == 0, bit1, bit0)
+    fmap[sf] = _x[7:8]
+    fmap[a] = _x
 
 
 def i_CPL(i_, fmap):
